@@ -209,6 +209,12 @@ func (c05) Run(t *tape.Tape, st *Stats) *Violation {
 		selfCheck(st, f, data, false)
 	}
 	cfg := DrawDelivery(t, tr.Fields, true)
+	ioFault := DrawIOFault(t, &cfg, tr.Fields, tr.NeededEnd)
+	if sweep && ioFault {
+		// the dimension sweeps are enumerations: every value is judged, none is
+		// excused by a fault
+		ioFault, cfg.ErrAt = false, -1
+	}
 	mid := DrawMidFile(t)
 	st.Class(tr.Format + ":" + variant)
 	var firstV *Violation
@@ -225,10 +231,14 @@ func (c05) Run(t *tape.Tape, st *Stats) *Violation {
 		if li == 1 {
 			straddleProbe(st, src, tr.Fields, src.Delivered)
 		}
+		st.Fault("io_error_inside_the_header_region", ioFault, src.ErrFired > 0)
 		class := ""
 		switch {
 		case res.Panic != nil:
 			class = "panic"
+		case !v.OK && src.ErrFired > 0:
+			// the source reported an I/O error during Load: failing is right;
+			// succeeding with other values than the header's is not (below)
 		case !v.OK:
 			class = "unexpected-error"
 		case v.Format != tr.Format:
@@ -242,7 +252,7 @@ func (c05) Run(t *tape.Tape, st *Stats) *Violation {
 		}
 		if class != "" && firstV == nil {
 			firstV = &Violation{Class: class, Sig: loader.Name + ":" + tr.Format + ":" + class,
-				Detail: fmt.Sprintf("%s on %s under %s: got %+v panic=%v, header says %s %dx%d %d bits", loader.Name, tr.Desc, cfg.String()+mid.String(), v, res.Panic, tr.Format, tr.W, tr.H, tr.Bits)}
+				Detail: fmt.Sprintf("%s on %s under %s: got %+v panic=%v, header says %s %dx%d %d bits", loader.Name, tr.Desc, cfg.String()+mid.String()+faultNote(cfg, src.ErrFired), v, res.Panic, tr.Format, tr.W, tr.H, tr.Bits)}
 		}
 	}
 	if srcs[0].Delivered > 0 && srcs[1].Delivered > 0 {
